@@ -46,7 +46,11 @@ def cxx_source(metas, allmeta):
         order.append(n)
     for n in metas:
         put(n)
-    out = ["#include <cstdint>", "#include <cstdio>", "#include <cstdlib>", "#include <cstring>", "#include <string>", ""]
+    out = ["#include <cstdint>", "#include <cstdio>", "#include <cstdlib>", "#include <cstring>", "#include <string>",
+           "#include <qpdf/Types.h>      // qpdf_offset_t"]
+    if any("QIntC::" in metas[n]["src"] for n in order):
+        out.append("#include <qpdf/QIntC.hh>      // the checked conversions the leaves call")
+    out.append("")
     for n in consts:
         out.append(allmeta[n]["src"] + ";")
     nss = []
@@ -221,7 +225,7 @@ def run_part(chk):
     exe = os.path.join(wd, "leaf_impl")
     with open(src, "w") as f:
         f.write(cxx_source(metas, meta))
-    rc, out = common.sh(["g++", "-std=c++20", "-O1", "-w", "-o", exe, src], timeout=300)
+    rc, out = common.sh(["g++", "-std=c++20", "-O1", "-w", "-I" + os.path.join(common.REPO, "include"), "-o", exe, src], timeout=300)
     if rc != 0:
         raise common.InfraError("leaf-translation: the source text of the translated functions does not compile on its own",
                                 out.decode("utf-8", "replace")[-2500:])
